@@ -82,7 +82,12 @@ func genConfig(t *rapid.T) (*string, ragen.Config, bool, string) {
 	case "absent":
 		return nil, ragen.Config{}, false, kind
 	case "invalid":
-		s := rapid.SampledFrom([]string{"patterns: [unclosed\n", "patterns:\n  anti_evasion:\n    unix: [1, 2\n", "\tpatterns: x\n", "patterns: 7\n"}).Draw(t, "badyaml")
+		// syntax errors, and files that parse as YAML but cannot be decoded because one entry has the wrong shape
+		// while the others are well-formed (block scalars as in CRS): the file is unusable, nothing is inserted
+		s := rapid.SampledFrom([]string{"patterns: [unclosed\n", "patterns:\n  anti_evasion:\n    unix: [1, 2\n", "\tpatterns: x\n", "patterns: 7\n",
+			"patterns:\n  anti_evasion:\n    unix: |\n      [\\x5c'\\\"]*\n    windows: |\n      [\\\"\\^]*\n  anti_evasion_suffix: 'oops'\n  anti_evasion_no_space_suffix:\n    unix: |\n      (?:<|>).*\n    windows: |\n      [,;]\n",
+			"patterns:\n  anti_evasion:\n    unix: 'Q*'\n    windows: [a, b]\n  anti_evasion_suffix:\n    unix: 'S'\n    windows: 'S'\n",
+			"patterns:\n  anti_evasion:\n    unix: |\n      E*\n    windows: |\n      E*\n  anti_evasion_suffix:\n    unix:\n      nested: map\n    windows: |\n      S\n"}).Draw(t, "badyaml")
 		return &s, ragen.Config{}, false, kind
 	case "directory":
 		return nil, ragen.Config{}, true, kind
